@@ -2127,6 +2127,26 @@ func (s *Store) deleteServiceTxn(tx WriteTxn, idx uint64, nodeName, serviceID st
 			if err := catalogUpdateServiceIndexes(tx, idx, svc.ServiceName, entMeta, svc.PeerName); err != nil {
 				return err
 			}
+			// The name may be shared by instances of several kinds: drop this kind's
+			// kind-service-name when none of the remaining instances has it.
+			if svc.PeerName == "" {
+				sameKind := false
+				remaining, err := tx.Get(tableServices, indexService, q)
+				if err != nil {
+					return fmt.Errorf("failed service lookup: %s", err)
+				}
+				for r := remaining.Next(); r != nil; r = remaining.Next() {
+					if r.(*structs.ServiceNode).ServiceKind == svc.ServiceKind {
+						sameKind = true
+						break
+					}
+				}
+				if !sameKind {
+					if err := cleanupKindServiceName(tx, idx, psn.ServiceName, svc.ServiceKind); err != nil {
+						return fmt.Errorf("failed to persist service name: %v", err)
+					}
+				}
+			}
 		} else {
 			// There are no more service instances, cleanup the service.<serviceName> index
 			_, serviceIndex, err := catalogServiceMaxIndex(tx, svc.ServiceName, entMeta, svc.PeerName)
